@@ -269,6 +269,52 @@ def masked_index_spaces(rep, M, rid):
     axis_maps = {norm(s2.targets[0]) for s2 in ast.walk(fn) if isinstance(s2, ast.Assign) and len(s2.targets) == 1 and isinstance(s2.targets[0], ast.Name)
                  and any(isinstance(c, ast.Call) and (M.ext_name(fq, c.func) or "") in ("numpy.where", "numpy.nonzero", "numpy.flatnonzero", "numpy.argwhere")
                          and c.args and "pbc" in norm(c.args[0]) for c in ast.walk(s2.value))}
+    # second index space of the function: the *valid* spans (np.where filter) - the chosen basis indexes that filtered list, so counts compared
+    # with it must be counts of the filtered list, not of the full list of possible spans
+    wh = [s2 for s2 in ast.walk(fn) if isinstance(s2, ast.Assign) and isinstance(s2.targets[0], ast.Name) and isinstance(s2.value, ast.Subscript)
+          and isinstance(s2.value.value, ast.Call) and (M.ext_name(fq, s2.value.value.func) or "") in ("numpy.where", "numpy.nonzero", "numpy.flatnonzero")]
+    retn = [r for r in fn.body if isinstance(r, ast.Return) and isinstance(r.value, ast.Tuple) and len(r.value.elts) == 4]
+    if wh and retn and isinstance(retn[-1].value.elts[3], ast.Name):
+        W = None
+        for w0 in wh:
+            if any(isinstance(x, ast.Subscript) and norm(x.slice) == w0.targets[0].id for x in ast.walk(fn)):
+                W = w0.targets[0].id
+        if W is None:
+            raise AnalysisError("_find_proto_cell: the filter of the valid spans (np.where(...)[0] used as an index) was not found")
+        unfiltered = {norm(x.value) for x in ast.walk(fn) if isinstance(x, ast.Subscript) and norm(x.slice) == W}
+        nsel = retn[-1].value.elts[3].id
+        flp = Flow(fn)
+        d0 = [s2 for s2 in ast.walk(fn) if isinstance(s2, ast.Assign) and norm(s2.targets[0]) == nsel and not isinstance(s2.value, ast.Constant)]
+        if not d0:
+            raise AnalysisError(f"_find_proto_cell: definition of `{nsel}` (periodic spans selected) not found")
+        # counts only: follow names whose definition is itself a count (len / range / arithmetic / comparison), never into the arrays
+        sdefs = {}
+        for s2 in ast.walk(fn):
+            if isinstance(s2, ast.Assign) and len(s2.targets) == 1 and isinstance(s2.targets[0], ast.Name):
+                sdefs.setdefault(s2.targets[0].id, []).append(s2.value)
+        seen, todo, lens = set(), [d0[-1].value], []
+        while todo:
+            e = todo.pop()
+            for x in ast.walk(e):
+                if isinstance(x, ast.Call) and isinstance(x.func, ast.Name) and x.func.id == "len" and x.args:
+                    lens.append(x)
+                if isinstance(x, ast.Name) and x.id not in seen:
+                    seen.add(x.id)
+                    for v in sdefs.get(x.id, []):
+                        countlike = isinstance(v, (ast.BinOp, ast.Compare, ast.Constant)) or (isinstance(v, ast.Call) and isinstance(v.func, ast.Name)
+                                                                                                 and v.func.id in ("len", "range", "int", "sum", "min", "max"))
+                        if countlike:
+                            todo.append(v)
+        bad = [c for c in lens if norm(c.args[0]) in unfiltered]
+        good = [c for c in lens if norm(c.args[0]) == W]
+        if bad:
+            rep.violation(rid, f"_find_proto_cell: `{nsel}`", f"the number of periodic spans among the chosen basis is computed from `{norm(bad[0])}`, the length of the *unfiltered* span "
+                          f"list, while the chosen basis indexes the list filtered by `{W}`: as soon as one neighbour span is filtered out the count is too low, the guard on the size "
+                          "of cells made of simulation-cell vectors is skipped and a whole slab with its adsorbates is accepted as one 2D cell", M.where(fq, bad[0]))
+        elif good:
+            rep.ok(rid, f"_find_proto_cell: `{nsel}` counts positions of the filtered span list (`len({W})`), the list the chosen basis indexes")
+        else:
+            raise AnalysisError(f"_find_proto_cell: `{nsel}` is not computed from the number of valid spans")
     if not masked:
         raise AnalysisError("_find_proto_cell: list of periodic cell vectors (`cell[pbc]`) not found")
     n = 0
@@ -293,6 +339,91 @@ def masked_index_spaces(rep, M, rid):
                     raise AnalysisError(f"_find_proto_cell: index space of `{x.value.id}` in `{norm(x)}` not known")
     if n < 1:
         raise AnalysisError("_find_proto_cell: no use of the periodic-vector counter found")
+
+
+def within_basis(rep, M, rid):
+    """index bookkeeping of get_positions_within_basis (the search for the atoms inside a candidate cell, used for every prototype cell
+    and every unit of a region): the image range along each cell axis must cover all corners of the searched cell"""
+    fq = GEO + ".get_positions_within_basis"
+    fn = M.func(fq)
+    ps = M.params(fq)
+    basis, origin = ps[1], ps[2]
+    # (1) the corners: origin + every non-empty subset of {basis[0], basis[1], basis[2]}, each exactly once
+    corners = {}
+    for s2 in ast.walk(fn):
+        if isinstance(s2, ast.Assign) and len(s2.targets) == 1 and isinstance(s2.targets[0], ast.Name):
+            terms = []
+            stack = [s2.value]
+            okexpr = True
+            while stack:
+                e = stack.pop()
+                if isinstance(e, ast.BinOp) and isinstance(e.op, ast.Add):
+                    stack += [e.left, e.right]
+                else:
+                    terms.append(e)
+            idx = []
+            has_origin = False
+            for t in terms:
+                if isinstance(t, ast.Name) and t.id == origin:
+                    has_origin = True
+                elif isinstance(t, ast.Subscript) and norm(t.value) == basis and isinstance(t.slice, ast.Tuple) and isinstance(t.slice.elts[0], ast.Constant):
+                    idx.append(t.slice.elts[0].value)
+                elif isinstance(t, ast.Subscript) and norm(t.value) == basis and isinstance(t.slice, ast.Constant):
+                    idx.append(t.slice.value)
+                else:
+                    okexpr = False
+            if okexpr and has_origin and idx:
+                corners[s2.targets[0].id] = (tuple(sorted(idx)), s2)
+    if len(corners) < 6:
+        raise AnalysisError(f"get_positions_within_basis: corner vectors of the searched cell not recognised ({len(corners)} found)")
+    want = {(0,), (1,), (2,), (0, 1), (0, 2), (1, 2), (0, 1, 2)}
+    got = [v[0] for v in corners.values()]
+    dup = sorted({g for g in got if got.count(g) > 1})
+    missing = sorted(want - set(got))
+    if not dup and not missing:
+        rep.ok(rid, "get_positions_within_basis: the seven corners origin + (subset of the basis vectors) are each listed once")
+    else:
+        first = next(v[1] for k, v in corners.items() if v[0] in dup) if dup else fn
+        names = [k for k, v in corners.items() if v[0] in dup]
+        rep.violation(rid, "get_positions_within_basis: corners of the searched cell", f"corner(s) {['+'.join('abc'[i] for i in m) for m in missing]} missing, "
+                      f"{['+'.join('abc'[i] for i in d) for d in dup]} listed twice (`{'`, `'.join(names)}`): the image range along an axis is computed without the corner "
+                      "origin + c, so when only that corner reaches into the neighbouring image (seed half-way up a cell that is one unit cell thick along c) the periodic copies "
+                      "there are never searched and no region is found from that seed", M.where(fq, first))
+    # (2) the ranges: range(min[k], max[k] + 1) with one k per range, k = 0, 1, 2 in this order
+    rngs = []
+    for s2 in ast.walk(fn):
+        if isinstance(s2, ast.Assign) and isinstance(s2.value, ast.Call) and isinstance(s2.value.func, ast.Name) and s2.value.func.id == "range" and len(s2.value.args) == 2:
+            lo, hi = s2.value.args
+            ki = [x.slice.value for x in ast.walk(lo) if isinstance(x, ast.Subscript) and isinstance(x.slice, ast.Constant)]
+            kj = [x.slice.value for x in ast.walk(hi) if isinstance(x, ast.Subscript) and isinstance(x.slice, ast.Constant)]
+            plus1 = isinstance(hi, ast.BinOp) and isinstance(hi.op, ast.Add) and isinstance(hi.right, ast.Constant) and hi.right.value == 1
+            rngs.append((norm(s2.targets[0]), ki, kj, plus1, s2))
+    if len(rngs) != 3:
+        raise AnalysisError(f"get_positions_within_basis: the three image ranges were not recognised ({len(rngs)})")
+    rngs.sort(key=lambda r: r[4].lineno)
+    for want_k, (nm, ki, kj, plus1, node) in enumerate(rngs):
+        if ki == [want_k] and kj == [want_k] and plus1:
+            rep.ok(rid, f"get_positions_within_basis: `{norm(node)}` covers the images of axis {want_k}")
+        else:
+            rep.violation(rid, f"get_positions_within_basis: `{norm(node)}`", f"the image range of axis {want_k} runs from component {ki} of the minimum to component {kj} of the "
+                          f"maximum{'' if plus1 else ' (upper end not included)'}: periodic copies along that axis are missed or the range is empty, so atoms near a cell face fail "
+                          "as seeds and whole slabs are dropped", M.where(fq, node))
+    cart = [c for c in ast.walk(fn) if isinstance(c, ast.Call) and norm(c.func).endswith("cartesian") and c.args and isinstance(c.args[0], (ast.Tuple, ast.List))]
+    if cart and [norm(e) for e in cart[0].args[0].elts] == [r[0] for r in rngs]:
+        rep.ok(rid, "get_positions_within_basis: the image offsets are the product of the three ranges in axis order")
+    else:
+        rep.violation(rid, "get_positions_within_basis: product of the ranges", "the ranges are not combined in axis order (a, b, c)", M.where(fq, cart[0] if cart else fn))
+    # (3) offsets along non-periodic axes are dropped: per axis `factor[k] != 0 and not pbc[k]`
+    tests = [t for t in ast.walk(fn) if isinstance(t, ast.If) and isinstance(t.test, ast.BoolOp) and isinstance(t.test.op, ast.And)
+             and any(isinstance(v, ast.UnaryOp) and isinstance(v.op, ast.Not) and "pbc" in norm(v) for v in t.test.values)]
+    ks = []
+    for t in tests:
+        pk = [x.slice.value for v in t.test.values for x in ast.walk(v) if isinstance(x, ast.Subscript) and isinstance(x.slice, ast.Constant) and "pbc" in norm(x.value)]
+        ks += pk
+    if sorted(ks) == [0, 1, 2]:
+        rep.ok(rid, "get_positions_within_basis: image offsets are only allowed along periodic axes (one test per axis)")
+    else:
+        rep.violation(rid, "get_positions_within_basis: periodicity filter", f"the per-axis tests cover pbc components {sorted(ks)}; required 0, 1 and 2 once each", M.where(fq))
 
 
 # ----------------------------------------------------------------------------- R04.4 reduction of a layered 3D cell
@@ -417,6 +548,16 @@ def run(rep, ctx):
     rep.rule("R04.10", "the counter of the periodic cell vectors is not used as a cell-axis number (monolayers are found whichever axis is the vacuum axis)")
     with rep.guard("R04.10"):
         masked_index_spaces(rep, M, "R04.10")
+    rep.rule("R04.11", "the search for the atoms inside a candidate cell covers every periodic image the cell reaches into (corner and range bookkeeping of get_positions_within_basis)")
+    with rep.guard("R04.11"):
+        within_basis(rep, M, "R04.11")
+    rep.rule("R04.12", "get_clusters derives everything it uses from this call's arguments: no finder, cell list or table is carried over from a previous call (shared with C01)")
+    with rep.guard("R04.12"):
+        c01.call_local_state(rep, M, "R04.12", c01.GC)
+    rep.rule("R04.13", "no function keeps results in module-level state or functools caches (answers do not depend on what the process analysed before)")
+    with rep.guard("R04.13"):
+        from .. import symrules as _SRms
+        _SRms.module_state(rep, ctx.model, "R04.13")
     rep.floor("R04.1", 6)
     rep.floor("R04.2", 6)
     rep.floor("R04.3", 8)
